@@ -347,6 +347,30 @@ def c10_eligible(spec, params):
     return True
 
 
+def c10_in_partial(spec, params):
+    """inside the hypotheses under which clause 3 is claimed: the two kept findings are excluded
+    (FIFO rule: F16; an automatic task that starts with no work left: F26)"""
+    if params["rule"] == 4:
+        return False
+    for t in spec["tasks"]:
+        if t.get("auto") and t["work"] * (1.0 - t.get("prog", 0.0)) <= 0:
+            return False
+    return True
+
+
+def c10_removal_differs(spec, p1):
+    """None when removing the absence steps gives the absence-free run (or a run did not succeed)"""
+    p0 = dict(p1, absence=[])
+    a = run_history(spec, [dict(op="sim", params=p1), dict(op="rm")], None)
+    b = run_history(spec, [dict(op="sim", params=p0)], None)
+    if len(a["states"]) == 2 and len(b["states"]) == 1 and not a["exc"][0] and not b["exc"][0]:
+        if a["states"][0]["status"] != 1 or b["states"][0]["status"] != 1:
+            return None
+        d = same_result(a["states"][1], b["states"][0])
+        return d or None
+    return ["exception"]
+
+
 def run_c10_removal(ctx, n):
     fps = set()
     n_eval = 0
@@ -354,23 +378,18 @@ def run_c10_removal(ctx, n):
         if n_eval >= n:
             break
         rng, spec, params = case_of(ctx.seed + 31, i)
-        if not c10_eligible(spec, params):
+        if not c10_eligible(spec, params) or not c10_in_partial(spec, params):
             continue
         L = sorted(set(rng.choice([0, 1, 2, 3, 4, 6, 9, 30]) for _ in range(rng.randint(1, 4))))
         if rng.random() < 0.3:
             L = L + [L[0]]
-        p0 = dict(params, maxTime=60, absence=[], initState=True, initLog=True)
-        p1 = dict(p0, absence=L)
+        p1 = dict(params, maxTime=200, absence=L, initState=True, initLog=True)
         n_eval += 1
-        a = run_history(spec, [dict(op="sim", params=p1), dict(op="rm")], None)
-        b = run_history(spec, [dict(op="sim", params=p0)], None)
-        if len(a["states"]) == 2 and len(b["states"]) == 1 and not a["exc"][0] and not b["exc"][0]:
-            d = same_result(a["states"][1], b["states"][0])
-            if d:
-                ctx.violations.append(dict(property="C10", what="removing the absence steps %s does not give the absence-free run (differs in %s)" % (L, d[:6]),
-                                           case=dict(stream="c10-removal", seed=ctx.seed + 31, index=i, spec=spec, params=p1)))
-            if b["states"][0]["time"] >= 2:
-                fps.add(json.dumps([spec, p1], sort_keys=True))
+        d = c10_removal_differs(spec, p1)
+        if d:
+            ctx.violations.append(dict(property="C10", what="removing the absence steps %s does not give the absence-free run (differs in %s)" % (L, d[:6]),
+                                       case=dict(stream="c10-removal", seed=ctx.seed + 31, index=i, spec=spec, params=p1)))
+        fps.add(json.dumps([spec, p1], sort_keys=True))
     return n_eval, fps
 
 
